@@ -558,6 +558,78 @@ theorem unfaithful_names_break :
   ⟨⟨wA, .dask 1 [3], .dask 2 [3], .dask 3 [1]⟩, ⟨wB, .dask 1 [3], .dask 2 [3], .dask 3 [1]⟩,
     by decide, by decide, by decide⟩
 
+/-! ## the 2-D shape of the connectivity is part of equality
+
+    `face_node_connectivity.equals` compares the shape `(n_face, n_max_face_nodes)` before the
+    entries, so two tables that flatten to the same sequence but have different shapes (12
+    consecutively numbered nodes as 4 triangles, 3 quadrilaterals or 2 hexagons) are different
+    grids.  Any rewrite that compares a projection of the arrays (flattened values, sorted
+    values, sums, lengths …) instead of the arrays loses this. -/
+
+/-- **equal ⇒ same number of faces and same width** (unconditional). -/
+theorem eq_implies_same_shape (a b : Grid) (h : gridEq a b = true) :
+    a.nFace = b.nFace ∧ a.width = b.width := by
+  obtain ⟨_, _, _, h4, h5, _⟩ := eq_sound a b h
+  exact ⟨h4, h5⟩
+
+/-- also in every backing state, faithful dask names or not: the shape test precedes xarray's
+    lazy shortcut. -/
+theorem eqB_implies_same_shape (a b : BGrid) (h : gridEqB a b = true) :
+    a.g.nFace = b.g.nFace ∧ a.g.width = b.g.width := by
+  have hc : connEqB a b = true := by
+    unfold gridEqB at h
+    cases hc : connEqB a b with
+    | true => rfl
+    | false => simp [hc] at h
+  have hs : connShapeEq a.g b.g = true := by
+    cases hs : connShapeEq a.g b.g with
+    | true => rfl
+    | false => simp [connEqB, varEqB, hs] at hc
+  simp [connShapeEq] at hs
+  exact ⟨hs.1.1, hs.1.2⟩
+
+/-- **a reshape is detected**: same flattened connectivity (fills included), another
+    `(n_face, width)` ⇒ unequal, in both orders, whatever the coordinates are. -/
+theorem reshape_detected (a b : Grid) (_hflat : a.conn = b.conn)
+    (hshape : a.nFace ≠ b.nFace ∨ a.width ≠ b.width) :
+    gridEq a b = false ∧ gridEq b a = false := by
+  rcases hshape with h | h
+  · exact ⟨(single_change_detected (Change.nFace b (Ne.symm h))).1,
+      (single_change_detected (Change.nFace b (Ne.symm h))).2.1⟩
+  · exact ⟨(single_change_detected (Change.width b (Ne.symm h))).1,
+      (single_change_detected (Change.width b (Ne.symm h))).2.1⟩
+
+/-- 12 nodes on a circle of latitude; the same flattened table `0 … 11` as 4×3, 3×4 and 2×6 -/
+def rLon : List Nat := [0, 4629137466983448576, 4633641066610819072, 4636033603912859648,
+  4638144666238189568, 4639481672377565184, 4640537203540230144, 4641592734702895104,
+  4642648265865560064, 4643457506423603200, 4643985272004935680, 4644513037586268160]
+def rLat : List Nat := List.replicate 12 4621819117588971520
+def r43 : Grid := ⟨[85], rLon, rLat, 4, 3, [0, 1, 2, 3, 4, 5, 6, 7, 8, 9, 10, 11], false⟩
+def r34 : Grid := { r43 with nFace := 3, width := 4 }
+def r26 : Grid := { r43 with nFace := 2, width := 6 }
+
+example : gridEq r43 r34 = false ∧ gridEq r34 r43 = false := reshape_detected r43 r34 rfl (Or.inl (by decide))
+example : gridEq r34 r26 = false ∧ gridEq r26 r34 = false := reshape_detected r34 r26 rfl (Or.inl (by decide))
+
+/-- a comparison of the flattened tables is blind to the shape: it calls 4 triangles, 3
+    quadrilaterals and 2 hexagons over the same 12 nodes equal and so violates the Spec, while
+    `gridEq` tells them apart. -/
+theorem flatten_blind_wrong :
+    gridEqFlat r43 r34 = true ∧ gridEqFlat r34 r26 = true ∧ gridEqFlat r43 r26 = true ∧
+    gridEq r43 r34 = false ∧ gridEq r34 r26 = false ∧ gridEq r43 r26 = false ∧
+    ¬ Spec r43 r34 (gridEqFlat r43 r34) (!gridEqFlat r43 r34) := by
+  refine ⟨by decide, by decide, by decide, by decide, by decide, by decide, ?_⟩
+  intro h
+  have := (specB_iff _ _ _ _).mpr h
+  revert this
+  decide
+
+/-- the flattened comparison is right exactly when the shapes agree. -/
+theorem flat_partial (a b : Grid) (h1 : a.nFace = b.nFace) (h2 : a.width = b.width) :
+    gridEqFlat a b = gridEq a b := by
+  unfold gridEqFlat gridEq connEq
+  simp [h1, h2]
+
 /-- what `or` computes: it forgets one of the two coordinate comparisons. -/
 theorem asis_eq_iff (a b : Grid) :
     gridEqAsIs a b = true ↔
